@@ -211,11 +211,13 @@ class MirrorSession(C03Replayer):
     def start(self):
         self.parents = {}
         self.last_mds = {}
+        self.truth = {}
         self._remember_topology()
         tr = super().start()
         tr[0]['cpost'] = self.csnapshot()
         tr[0]['reports'] = []
         tr[0]['fired'] = self.fired_sets()
+        tr[0]['store'], tr[0]['truth'] = [], {}
         self.new_wires()
         return tr
 
@@ -231,7 +233,32 @@ class MirrorSession(C03Replayer):
         out['reports'] = reports
         out['cpost'] = self.csnapshot()
         out['fired'] = self.fired_sets()
+        out['store'], out['truth'] = self.store_projection(out)
         return out
+
+    def store_projection(self, out):
+        """State copies retained by the periodic reports handler, with the truth of the versions they are labelled with."""
+        handler = self.pair.provider._periodic_reports_handler  # noqa: SLF001
+        if out['act'] == 'Commit' and out['res'] == 'ok':
+            p = out['post']
+            self.truth[str(p['mver'])] = {'S': p['S'], 'C': p['C']}
+        store = []
+        for name in ('_periodic_metric_reports', '_periodic_alert_reports', '_periodic_component_state_reports',
+                     '_periodic_context_state_reports', '_periodic_operational_state_reports'):
+            lst = getattr(handler, name, None)
+            if lst is None:
+                continue
+            del lst[:-3]
+            for ps in lst:
+                entries = []
+                for st in ps.states:
+                    h = self.abstract_state_handle(st)
+                    if h != 'other':
+                        entries.append({'k': 'C' if st.is_context_state else 'S', 'h': h, 'ver': st.StateVersion,
+                                        'tok': self.proj.tokens.tok(content(st))})
+                store.append({'mver': ps.mdib_version, 'entries': entries})
+        keep = {str(s['mver']) for s in store}
+        return store, {k: v for k, v in self.truth.items() if k in keep}
 
     def close(self):
         self.pair.stop()
